@@ -49,6 +49,12 @@ func levelAModels(thorough bool) []sysCfg {
 		{Name: "2c-2i-poll3", MaxCtr: 2, Cap: 2, Types: "A", Prios: "1", Events: "createquota slow-poll-queued", Budget: 2, Depth: 15, PollTicks: 3},
 		// one container, one instance: every fault class, late answers, operator actions, restart; one fault
 		{Name: "1c-1i-f1", MaxCtr: 1, Cap: 1, Types: "A", Prios: "1", Events: user + allFaults + allSlow, Budget: 1, Depth: 16},
+		// two containers, capacity of one instance: the operator shuts the instance down (management API
+		// "kill instance") while the first container's crunch-run is alive, the cloud's Destroy fails (the
+		// instance stays listed, the worker stays in the pool in state shutdown), the first container is
+		// cancelled and its process killed successfully: the shut-down worker must not come back as idle
+		// and get the waiting second container
+		{Name: "2c-1i-killinst", MaxCtr: 2, Cap: 1, Types: "A", Prios: "1", Events: "cancel killinst destroyfail", Budget: 2, Depth: 11},
 		// two containers, capacity of one instance: the higher-priority late-comer hits the capacity quota
 		// error and runQueue's at-quota sweep unlocks the lower-priority container whose crunch-run is
 		// already alive (still Locked); sync sends SIGTERM "state=Queued"; the late-comer is cancelled;
@@ -72,6 +78,7 @@ func levelAModels(thorough bool) []sysCfg {
 			{Name: "3c-2i-f0", MaxCtr: 3, Cap: 2, Types: "A", Prios: "12", Events: "cancel", Budget: 0, Depth: 10},
 			{Name: "1c-1i-poll", MaxCtr: 1, Cap: 1, Types: "A", Prios: "1", Events: "wait createquota crash slow-poll-mine slow-poll-queued slow-poll-missing", Budget: 2, Depth: 16},
 			{Name: "2c-2i-poll3", MaxCtr: 2, Cap: 2, Types: "A", Prios: "12", Events: "createquota slow-poll-queued slow-poll-mine", Budget: 2, Depth: 18, PollTicks: 3},
+			{Name: "2c-1i-killinst2", MaxCtr: 2, Cap: 1, Types: "A", Prios: "1", Events: "cancel prio0 killinst destroyfail killfail", Budget: 2, Depth: 12},
 			{Name: "1c-1i-hold2", MaxCtr: 1, Cap: 1, Types: "A", Prios: "1", Events: "prio0 prio1 cancel linger killfail hang restart slow-kill slow-list", Budget: 2, Depth: 18},
 			{Name: "2c-1i-requeue2", MaxCtr: 2, Cap: 1, Types: "A", Prios: "12", Events: "cancel linger killfail", Budget: 2, Depth: 12},
 		}
